@@ -267,6 +267,12 @@ def gen_shipped(rnd, classes=None, dyn=None, oracles=('clock', 'member', 'loci')
                 ptypes=rnd.choice([None, None, None, 'int', 'np']))
 
 
+def gen_tuplelabels(rnd):
+    """networks whose node labels are tuples (networkx lattices): known finding K3"""
+    base = gen_shipped(rnd, net=rand_net(rnd, 2, 5)); base.update(strlabels='tuple', preattr=None)
+    return base
+
+
 def gen_varfix(rnd, dyn=None):
     return gen_shipped(rnd, classes=['VarInfFixed'], dyn=dyn, oracles=('clock', 'member', 'loci', 'diagram', 'forest'),
                        net=rand_net(rnd, 3, 7, kind=rnd.choice(['er', 'complete', 'star'])), maxT=rnd.choice([2.0, 4.0]))
